@@ -197,7 +197,7 @@ static void run_c01(djinterop::database& dbi)
         track_snapshot after = t.snapshot();                                                                                      \
         track_snapshot want = before; want.field = v.field; want = norm(want);                                                    \
         verif_assert(cmp(getexpr, want.field), "C06: getter after set_" #field " does not return the (normalised) value set");    \
-        eq_snapshot(want, after, "", false);                                                                                      \
+        eq_snapshot(want, after, "", verif_param("wave") != 0);      /* a stored waveform must survive every other setter */             \
         break;                                                                                                                    \
     }
 static bool c_os(const std::optional<std::string>& a, const std::optional<std::string>& b) { return eq_os(a, b); }
@@ -215,6 +215,11 @@ static void run_c06(djinterop::database& dbi)
     g_opt = 11; track_snapshot v = sym_snapshot();           // source of new values
     int slot = (int)verif_param("slot");
     bool rejected = false;
+    if (verif_param("wave") != 0)
+    {   // (sym_snapshot keeps sample count / rate concrete next to a waveform; the NEW values of the waveform-kept jobs are symbolic all the same)
+        if (verif_param("op") == 15) v.sample_rate = (double)verif_range_u32(1, 1u << 20, "new_rate");
+        if (verif_param("op") == 14) v.sample_count = verif_range_u64(1, 1ull << 40, "new_count");
+    }
     verif_reach("prepared");
     switch (verif_param("op"))
     {
